@@ -164,7 +164,17 @@ def mutants(chk, prop, tier, wd, tape_files):
         if ns == 0:
             continue
         take = min(2500 if heavy else 6000, ns) if tag.startswith("dense-") else min(per_start, ns)
-        sel = "{" + ", ".join(str(i) for i in sorted(rng.sample(range(1, ns + 1), take))) + "}"
+        # TLC reads the whole seed file into memory (a thorough corpus is > 100 MB of JSON: "GC overhead limit exceeded"):
+        # only the selected seeds are handed to it
+        chosen = set(rng.sample(range(1, ns + 1), take))
+        picked = seeds + ".sel"
+        with open(seeds) as fh, open(picked, "w") as oh:
+            for i, l in enumerate(fh, 1):
+                if i in chosen:
+                    oh.write(l)
+        os.remove(seeds)
+        seeds = picked
+        sel = "{}"
         out = os.path.join(wd, "treefaults-%s.ndjson" % tag)
         if os.path.exists(out):
             os.remove(out)
